@@ -478,13 +478,38 @@ func runC14(w *World, r *Report) {
 		})
 		r.Check(okSum, "C14-R4", "(*Packer).Receive | same size to Add and currentMsgPackSize", ac.Pos(), "currentMsgPackSize += v and Add(v) use the same SSA value", "the value given to memoryProtector.Add differs from the value added to currentMsgPackSize: Remove(currentMsgPackSize) will not balance the global counter")
 		// the size is the sum of Size() of the messages of the received pack
+		// (a hand-written loop, or a helper such as lo.SumBy(msg.MsgPack.Msgs, func(m) int { return m.Size() }))
 		okSize := false
-		for _, v := range backSlice(sz, SliceOpts{}) {
+		fromPack, sized := false, false
+		allArgs := func(c *ssa.CallCommon) []ssa.Value { return callArgs(c) }
+		for _, v := range backSlice(sz, SliceOpts{ThroughArg: allArgs}) {
+			if strings.HasPrefix(w.accessPath(v), "param:"+msgParam.Name()+".MsgPack.Msgs") {
+				fromPack = true
+			}
 			if c, ok := v.(*ssa.Call); ok && c.Call.IsInvoke() && c.Call.Method.Name() == "Size" {
 				if strings.HasPrefix(w.accessPath(c.Call.Value), "param:"+msgParam.Name()+".MsgPack.Msgs") {
 					okSize = true
 				}
 			}
+			// a function literal handed to a summing helper: it must return Size() of its own parameter
+			var lit *ssa.Function
+			if mc, ok := v.(*ssa.MakeClosure); ok {
+				lit, _ = mc.Fn.(*ssa.Function)
+			} else if f, ok := v.(*ssa.Function); ok && f.Parent() != nil {
+				lit = f
+			}
+			if lit != nil && len(lit.Params) >= 1 {
+				eachInstr(lit, func(in ssa.Instruction) {
+					if ret, ok := in.(*ssa.Return); ok && len(ret.Results) == 1 {
+						if c, ok := ret.Results[0].(*ssa.Call); ok && c.Call.IsInvoke() && c.Call.Method.Name() == "Size" && c.Call.Value == ssa.Value(lit.Params[0]) {
+							sized = true
+						}
+					}
+				})
+			}
+		}
+		if fromPack && sized {
+			okSize = true
 		}
 		r.Check(okSize, "C14-R4", "(*Packer).Receive | size measures the received pack", ac.Pos(), "size = Σ msg.Size() over msg.MsgPack.Msgs", "the size added is not computed from the received pack's messages")
 	}
